@@ -475,12 +475,16 @@ def seeded_states(uname, deep_only=True, in_wbs=(True,), max_links=1):
     return out
 
 
-def _chase(U, chase, acc, rounds=2, cap=3000):
+def _chase(U, chase, acc, rounds=2, cap=800):
     """Successor states of the rich alphabet that break only C05 / C11 (e.g. a task that dropped out of its tree and still names its
     WBS) are followed for two more steps of the attach alphabet: what such a state allows next (a second task with the same id
     attached unnoticed) belongs to the same properties. There are none on a tree that satisfies them, so this costs nothing then."""
     global _OPS, _SEEN
     if not chase:
+        return
+    if len(acc.viol) > 60:
+        # dozens of distinct violation signatures already: the verdict is settled, following broken states further only costs time
+        acc.count('chase_skipped_verdict_settled')
         return
     saved = U.alphabet
     U.alphabet = 'full'
